@@ -35,6 +35,7 @@ DOCS = [
     "A: 1\nB: 2  ",                                                     # unterminated last line with trailing blanks
     "A: 1\nB: ",                                                        # unterminated last line: empty value + blank
     "A: 1\nB:",                                                         # unterminated last line: empty value
+    "# build tools \n#\t\n# \nDepends: a\n#  two \x0c words\t \nSection: utils\nLast: z\n",  # comment lines ending in blanks (round 3)
 ]
 BOUNDARY = (10, 11, 12, 13, 28, 29, 30, 133, 0x2028, 0x2029)
 
